@@ -2,7 +2,7 @@
 from common import TB_COMMON
 
 PROP = {
-    "lean_modules": ["CapyV.Props.C01"],
+    "lean_modules": ["CapyV.Props.C01", "CapyV.Props.C01AggEq"],
     "level": "translation_validation",
     "needs_cli": True,
     "trusted_base": TB_COMMON + [
